@@ -92,10 +92,10 @@ def prove_decode_lemmas(reg, prop, D):
         carry = z3.And(*[d(j, s) == n[j] - 1 for j in range(k)]) if k else z3.BoolVal(True)
         goal = d(k, s + 1) == z3.If(carry, z3.If(d(k, s) + 1 == n[k], 0, d(k, s) + 1), d(k, s))
         reg.prove("%s.lemma.decode_successor.D%d.digit%d" % (prop, D, k), pre + [s + 1 < N] + stage, goal,
-                  function="lemma (mixed radix)", engine="cvc", timeout_ms=120000)
+                  function="lemma (mixed radix)", engine="cvc", timeout_ms=240000)
     reg.prove("%s.lemma.decode_last_point.D%d" % (prop, D), pre + stage,
               z3.Implies(z3.And(*[d(k, s) == n[k] - 1 for k in range(D)]), s == N - 1),
-              function="lemma (mixed radix)", engine="cvc", timeout_ms=120000)
+              function="lemma (mixed radix)", engine="cvc", timeout_ms=240000)
     reg.assume("decode lemmas use instances of div_div ((x/a)/b = x/(ab), proved by z3) and of the "
                "division algorithm x = n (x div n) + x mod n, 0 <= x mod n < n")
 
@@ -903,7 +903,7 @@ class KernelProof(object):
         for name, assumptions, goal in ex.obligations:
             inst = self.lemma_instances(assumptions + [goal])
             reg.prove(name, assumptions + inst, goal, function=where, engine="cvc",
-                      timeout_ms=60000, nl=False, replay=self.replay)
+                      timeout_ms=180000, nl=False, replay=self.replay)
         ex.obligations = []
         # ---- body contract: the real statements against the spec -------------
         if "stmts" not in body_nodes:
@@ -1003,10 +1003,10 @@ class KernelProof(object):
         except _Done:
             pass
         for name, assumptions, goal in ex.obligations:
-            reg.prove(name, assumptions, goal, function=where, engine="cvc", timeout_ms=60000)
+            reg.prove(name, assumptions, goal, function=where, engine="cvc", timeout_ms=180000)
         for nme, assumptions, goal in captured.get("obl", []):
             atoms = captured.get("cases", {}).get(nme)
-            kw = dict(function=where, engine="cvc", timeout_ms=60000,
+            kw = dict(function=where, engine="cvc", timeout_ms=180000,
                       nl=nme not in ("writes_only_q_slots", "parameter_vector_unchanged"),
                       replay=self.replay)
             oid = "%s.kernel.%s.body_contract.%s" % (prop, tag, nme)
